@@ -104,21 +104,22 @@ func doBuild() {
 }
 
 type job struct {
-	Mode        string  `json:"mode"`
-	Property    string  `json:"property"`
-	Tier        string  `json:"tier"`
-	VerifSeed   uint64  `json:"verif_seed"`
-	Worker      int     `json:"worker"`
-	Workers     int     `json:"workers"`
-	BudgetS     float64 `json:"budget_s"`
-	MaxRuns     int     `json:"max_runs"`
-	MaxFailures int     `json:"max_failures"`
-	DetEvery    int     `json:"det_every"`
-	Out         string  `json:"out"`
-	Hashes      string  `json:"hashes"`
-	File        string  `json:"file"`
-	FileOut     string  `json:"file_out"`
-	DumpRuns    string  `json:"dump_runs"`
+	Mode        string         `json:"mode"`
+	Property    string         `json:"property"`
+	Tier        string         `json:"tier"`
+	VerifSeed   uint64         `json:"verif_seed"`
+	Worker      int            `json:"worker"`
+	Workers     int            `json:"workers"`
+	BudgetS     float64        `json:"budget_s"`
+	MaxRuns     int            `json:"max_runs"`
+	MaxFailures int            `json:"max_failures"`
+	DetEvery    int            `json:"det_every"`
+	Out         string         `json:"out"`
+	Hashes      string         `json:"hashes"`
+	File        string         `json:"file"`
+	FileOut     string         `json:"file_out"`
+	DumpRuns    string         `json:"dump_runs"`
+	Known       []knownFinding `json:"known"`
 }
 
 type workerResult struct {
@@ -191,6 +192,9 @@ type knownFinding struct {
 }
 
 func loadKnown() []knownFinding {
+	if os.Getenv("VERIF_IGNORE_KNOWN") != "" {
+		return nil
+	}
 	b, err := os.ReadFile(filepath.Join(root, "known_findings.json"))
 	if err != nil {
 		return nil
@@ -243,6 +247,7 @@ type summary struct {
 	DetMismatch int               `json:"det_mismatch"`
 	Samples     []json.RawMessage `json:"samples"`
 	Failures    int               `json:"failures"`
+	KnownSeen   map[string]int    `json:"known_seen"`
 }
 
 type propMeta struct {
@@ -394,6 +399,13 @@ func explore(prop, tier string) int {
 	}
 	td := tmpDir(prop)
 	defer os.RemoveAll(td)
+	kf := loadKnown()
+	var openKnown []knownFinding
+	for _, k := range kf {
+		if k.Property == prop && k.Status == "open" {
+			openKnown = append(openKnown, k)
+		}
+	}
 	results := make([]workerResult, workers)
 	var wg sync.WaitGroup
 	for w := 0; w < workers; w++ {
@@ -401,7 +413,7 @@ func explore(prop, tier string) int {
 		go func(w int) {
 			defer wg.Done()
 			j := job{Mode: "explore", Property: prop, Tier: tier, VerifSeed: seed, Worker: w, Workers: workers, BudgetS: budget,
-				MaxRuns: maxRuns, MaxFailures: 2, DetEvery: 25, Out: filepath.Join(td, fmt.Sprintf("w%d.jsonl", w)),
+				MaxRuns: maxRuns, MaxFailures: 2, DetEvery: 25, Known: openKnown, Out: filepath.Join(td, fmt.Sprintf("w%d.jsonl", w)),
 				Hashes: filepath.Join(td, fmt.Sprintf("w%d.hashes", w))}
 			results[w] = runWorker(j, 1, time.Duration(budget*float64(time.Second))+10*time.Minute)
 		}(w)
@@ -409,7 +421,7 @@ func explore(prop, tier string) int {
 	wg.Wait()
 
 	// aggregate
-	agg := summary{Probes: map[string]int{}, Faults: map[string]int{}, Modes: map[string]int{}, Labels: map[string]int{}}
+	agg := summary{Probes: map[string]int{}, Faults: map[string]int{}, Modes: map[string]int{}, Labels: map[string]int{}, KnownSeen: map[string]int{}}
 	var failures []json.RawMessage
 	infra := []string{}
 	for w, r := range results {
@@ -442,6 +454,9 @@ func explore(prop, tier string) int {
 				}
 				for k, v := range s.Labels {
 					agg.Labels[k] += v
+				}
+				for k, v := range s.KnownSeen {
+					agg.KnownSeen[k] += v
 				}
 				agg.Samples = append(agg.Samples, s.Samples...)
 			case "failure":
@@ -479,8 +494,14 @@ func explore(prop, tier string) int {
 		prop, tier, seed, agg.Runs, agg.Steps, float64(agg.SimTimeNs)/1e9, agg.Nontrivial, len(distinct), wall)
 
 	exit := 0
-	kf := loadKnown()
 	knownSeen := map[string]int{}
+	for _, k := range openKnown {
+		key := k.Class + "|" + k.Detail
+		if n := agg.KnownSeen[key]; n > 0 {
+			fmt.Printf("KNOWN-FINDING: property=%s %s (seen in %d runs)\n", prop, k.What, n)
+			knownSeen[key] = n
+		}
+	}
 	violations := 0
 	replayDir := filepath.Join(root, "replays")
 	os.MkdirAll(replayDir, 0o755)
@@ -621,31 +642,31 @@ func writeEvidence(prop, tier string, seed uint64, meta propMeta, agg summary, d
 		"wall_s":      wall,
 		"violations":  violations,
 		"coverage": map[string]any{
-			"evaluations":                agg.Runs,
-			"distinct_nontrivial":        distinct,
-			"rule":                       meta.Rule,
-			"samples":                    samples,
-			"nontrivial_runs":            agg.Nontrivial,
-			"scheduler_decisions":        agg.Steps,
-			"max_decisions_in_one_run":   agg.MaxSteps,
-			"goroutines_scheduled":       agg.Tasks,
-			"simulated_time_s":           float64(agg.SimTimeNs) / 1e9,
-			"runs_per_hour":              runsPerHour,
-			"workers":                    workers,
-			"budget_s":                   budget,
-			"strategy_mix":               agg.Modes,
-			"faults_injected":            agg.Faults,
-			"probes":                     agg.Probes,
-			"probes_never_hit":           zero,
-			"gates_passed_under_lock":    agg.Passthrough,
-			"hottest_scheduling_points":  top,
-			"determinism_spot_checks":    agg.DetChecked,
-			"determinism_mismatches":     agg.DetMismatch,
-			"real_components":            meta.Real,
-			"stubbed_components":         meta.Stub,
-			"known_findings_seen":        knownList,
-			"seed_derivation":            "run seed = H(VERIF_SEED, property id, run index); case, schedule and faults are drawn from streams derived from it",
-			"distinct_measure":           "distinct (scheduler decision sequence hash XOR logical history hash) among non-trivial runs",
+			"evaluations":                 agg.Runs,
+			"distinct_nontrivial":         distinct,
+			"rule":                        meta.Rule,
+			"samples":                     samples,
+			"nontrivial_runs":             agg.Nontrivial,
+			"scheduler_decisions":         agg.Steps,
+			"max_decisions_in_one_run":    agg.MaxSteps,
+			"goroutines_scheduled":        agg.Tasks,
+			"simulated_time_s":            float64(agg.SimTimeNs) / 1e9,
+			"runs_per_hour":               runsPerHour,
+			"workers":                     workers,
+			"budget_s":                    budget,
+			"strategy_mix":                agg.Modes,
+			"faults_injected":             agg.Faults,
+			"probes":                      agg.Probes,
+			"probes_never_hit":            zero,
+			"gates_passed_under_lock":     agg.Passthrough,
+			"hottest_scheduling_points":   top,
+			"determinism_spot_checks":     agg.DetChecked,
+			"determinism_mismatches":      agg.DetMismatch,
+			"real_components":             meta.Real,
+			"stubbed_components":          meta.Stub,
+			"known_findings_seen":         knownList,
+			"seed_derivation":             "run seed = H(VERIF_SEED, property id, run index); case, schedule and faults are drawn from streams derived from it",
+			"distinct_measure":            "distinct (scheduler decision sequence hash XOR logical history hash) among non-trivial runs",
 			"atomic_regions_not_explored": "code executed while a sync.Mutex/RWMutex is held (lib.Map.Range callbacks, target manager internals) runs without scheduling points",
 		},
 		"assumptions": []string{
